@@ -554,7 +554,7 @@ PlanInfo const& plan_info(Args const& a)
 {
 	static PlanInfo pi;
 	if (!pi.K.empty()) return pi;
-	pi.stride = int(a.geti("stride", a.thorough() ? 1 : 3));
+	pi.stride = int(a.geti("stride", a.thorough() ? 1 : 6));
 	for (int s = 0; s < Scn::count(); ++s)
 	{
 		M().reset();
@@ -577,6 +577,13 @@ Plan plan(Args const& a) { PlanInfo const& pi = plan_info(a); return Plan{pi.tot
 void run_case(Args const& a, std::uint64_t c)
 {
 	PlanInfo const& pi = plan_info(a);
+	// spread the heavy scenarios over all chunks: visit the case space in a fixed permuted order
+	{
+		std::uint64_t mult = 1000003;
+		auto gcd = [](std::uint64_t x, std::uint64_t y) { while (y) { std::uint64_t t = x % y; x = y; y = t; } return x; };
+		while (gcd(mult, pi.total) != 1) mult += 2;
+		c = std::uint64_t((__int128(c) * mult) % pi.total);
+	}
 	int s = 0;
 	while (s + 1 < int(pi.first.size()) && pi.first[std::size_t(s + 1)] <= c) ++s;
 	std::uint64_t x = c - pi.first[std::size_t(s)];
